@@ -59,6 +59,10 @@ Proof.
     + rewrite !ent_app_r by (rewrite ?map_length; exact H). rewrite map_length. apply ent_map_vscale.
 Qed.
 
+Theorem corrmtx_rowscaled_thm c (x : list F) p meth : meth = MCovariance \/ meth = MModified ->
+  RowScaled (nrm2 c) (corrmtx x p meth) (corrmtx (vscale c x) p meth).
+Proof. intros [-> | ->]; [apply corrmtx_covariance_rowscaled|apply corrmtx_modified_rowscaled]. Qed.
+
 (* inner products of columns of row-scaled matrices *)
 Lemma dotc_rowscaled s (A B A' B' : list (list F)) (d : nat -> F) i j :
   length A' = length A -> (forall n, nrm2 (d n) = s) ->
